@@ -409,7 +409,9 @@ Section NetF.
       upd_cases' pid q; exact F.
     - (* close *)
       intros q. specialize (F q). unfold inflight in *; cbn [px tg fwd sent dlv lossy do_close].
-      destruct (flat_cut k (fwd st)) as [rest Er]. rewrite Er, fmsgs_app in F.
+      assert (Er : flat (fwd st) = flat [firstn k (flat (fwd st))] ++ skipn k (flat (fwd st))).
+      { simpl. symmetry. apply firstn_skipn. }
+      rewrite Er, fmsgs_app in F. set (rest := skipn k (flat (fwd st))) in *.
       eapply Fd_drop; [exact F|].
       apply subseq_app; [apply subseq_refl|]. apply subseq_app; [apply subseq_refl|].
       replace (pmsgs (x_mbox (if x_was (px st q) then px_dead else px_none))) with (@nil msg)
@@ -731,8 +733,8 @@ Section NetG2.
         upd_cases' p q; [cbn [x_was] in Hq|]; now apply G6.
   Qed.
 
-  Lemma in_flat_cut {A} k (l : list (list A)) x : In x (flat (cut k l)) -> In x (flat l).
-  Proof. destruct (flat_cut k l) as [rest E]. rewrite E. intros H. apply in_or_app. now left. Qed.
+  Lemma in_flat_cut {A} k (l : list (list A)) x : In x (flat [firstn k (flat l)]) -> In x (flat l).
+  Proof. simpl. intros H. rewrite <- (firstn_skipn k (flat l)). apply in_or_app. now left. Qed.
 
   Lemma invG_sety st pid t fs lz :
     invG resp st -> (forall f, In f fs -> is_control f) ->
